@@ -861,6 +861,14 @@ class LibsModel:
             if target is not None:
                 self.rebind(interp, st, frame, target, recv.w(elem=join(recv.elem, v)))
             return join(recv.elem, v)
+        if name == 'update' and recv.counter and len(args) == 1 and not kwargs and target is not None:
+            # Counter.update(mapping / iterable) ADDS the counts of the argument to the entries
+            a = args[0]
+            if a.ty == 'dict' and (a.keyelem is not None or a.counter):
+                self.rebind(interp, st, frame, target, recv.w(keyelem=join(recv.keyelem, a.keyelem) if (recv.keyelem is not None or not recv.empty_init) else a.keyelem,
+                                                              elem=join(recv.elem, a.elem), accum=True if not recv.overwrite else recv.accum,
+                                                              deps=(recv.deps or frozenset()) | (a.deps or frozenset()), empty_init=None))
+                return const(None)
         if name == 'update':
             kw = dict(recv.kw or {})
             extra_deps = frozenset()
